@@ -29,4 +29,4 @@ from contracts import lemmas as _L  # noqa: E402
 register(Unit(P, "LEMMA/SER", _L.h_ser, functions=[], replay=cp._replay_mm_commit, uses=_L.SER_USES))
 
 from contracts import helpers as _HLP  # noqa: E402
-_HLP.register_under("C01", ["HELPER/_deep_copy_metadata", "HELPER/validate_data_files", "HELPER/validate_file_exists", "HELPER/metadata-file-io"])
+_HLP.register_under("C01", ["HELPER/_deep_copy_metadata", "HELPER/validate_data_files", "HELPER/validate_file_exists", "HELPER/metadata-file-io", "NAME/_new_metadata_filename"])
